@@ -125,6 +125,11 @@ func (msg *Message) UnmarshalXML(d *xml.Decoder, start xml.StartElement) error {
 					return err
 				}
 				msg.Extensions = append(msg.Extensions, msgExt)
+			} else if tt.Name.Space != start.Name.Space {
+				// Unknown extension of another namespace, even if it is named like a standard child
+				if err = d.Skip(); err != nil {
+					return err
+				}
 			} else {
 				// Decode standard message sub-elements
 				var err error
